@@ -24,12 +24,15 @@ def load_variants(pid):
         return []
 
 
-def _violated(pid, overrides):
-    from .main import run_property
+def _violated(pid, overrides, want_lost=False):
+    from .main import load_floors, lost_confirmed, run_property
 
     model = RepoModel(overrides=overrides)
     ctx = run_property(pid, "quick", model)
-    return {o.key: o for o in ctx.obs if o.status == "violated"}
+    viol = {o.key: o for o in ctx.obs if o.status == "violated"}
+    if want_lost:
+        return viol, lost_confirmed(ctx, load_floors().get(pid, {})), ctx.crashed
+    return viol
 
 
 def _apply(v, repo):
@@ -55,7 +58,7 @@ def _one(args):
         if ov is None:
             return (v["name"], "skipped", "edit does not apply to the current tree")
         try:
-            viol = _violated(pid, ov)
+            viol, lost, crashed = _violated(pid, ov, want_lost=True)
         except AnalysisError as exc:
             if v.get("expect") == "analysis-error":
                 return (v["name"], "ok", f"analysis error as expected: {exc}")
@@ -64,7 +67,15 @@ def _one(args):
         if v.get("expect", "violation") == "silent":
             if new:
                 return (v["name"], "failed", f"silent twin raised {sorted(new)[:3]}")
+            if lost or crashed:
+                return (v["name"], "failed", f"silent twin is no longer decidable: {lost[:3] or crashed[-200:]}")
             return (v["name"], "ok", "silent")
+        if v.get("expect") == "undecidable":
+            if new:
+                return (v["name"], "ok", f"reported {sorted(new)[0]}")
+            if lost or crashed:
+                return (v["name"], "ok", f"exit 2: {len(lost)} confirmed obligation(s) lost")
+            return (v["name"], "failed", "variant neither violates nor loses a confirmed obligation")
         want_rule = v.get("rule")
         want_sub = v.get("construct")
         hits = [k for k in new if (want_rule is None or k[0] == want_rule) and (want_sub is None or want_sub in k[2])]
